@@ -2,8 +2,8 @@ from vdriver import Job
 
 LEVEL = "proof"
 TECHNIQUE = "CBMC harness contracts on the real exception-record functions (arbitrary record) + construct lemmas over the real try/catch macro text; setjmp/longjmp cut by noreturn stubs"
-LEVEL_TEXT = "placeholder"
-NOTE = "placeholder"
+LEVEL_TEXT = 'Complete harness proofs (no bound on depth 0..2048 or on the record contents) of the contracts of exception_try/try_end/try_fail/throw/catch on an arbitrary exception record, plus the two construct lemmas over the real try/catch macro expansion (body completes / body threw). The structural induction over program trees is a lemma over these machine-checked steps.'
+NOTE = 'C semantics of setjmp/longjmp/exit (cut by noreturn stubs); induction over program trees not mechanised; filters of 0..3 entries; per-thread record lookup (Thread.c) not decided'
 EXPLANATION = ("Contracts of exception_try/try_end/try_fail/throw/catch are asserted on an arbitrary (havoced) exception record of the real "
                "struct, with every depth 0..2048; the two construct lemmas run the real macro expansion with setjmp returning 0 (body completes, "
                "body summarised by the induction hypothesis) and 1 (body threw). Structural induction over program trees is the lemma over these "
